@@ -34,6 +34,7 @@ def run(ctx):
     ctx.guard(rule_c, ctx, ix, reg)
     ctx.guard(rule_d, ctx, ix, reg)
     ctx.guard(rule_e, ctx, ix, reg)
+    ctx.guard(rule_g, ctx, ix)
     # every registered loader version must still load: back-references are resolved after the object is published
     from ..report import BorrowedCtx
     from .C02 import rule_f as _backrefs
@@ -402,3 +403,77 @@ def rule_e(ctx, ix, reg):
                               % (v, t.rpartition('.')[2], ld.name, k, rd.name, m, v, sa_, m, sb_, v, m), where=ld.where)
     if n < 20:
         raise AnalysisError('C12.e: only %d inherited key readings found' % n)
+
+
+def _quantified(fnode, st):
+    """Under which quantified condition over a collection does statement ``st`` run?  ('exists' | 'forall', element variable,
+    collection text, predicate formula) or None.  Recognised: the search loop (`for e in C: if P: S; break`), and `if any(P for e
+    in C)` / `if all(...)` / their negations (also through a single-assignment local)."""
+    from .. import cond
+    from ..util import parent_map, expand_locals
+    pm = parent_map(fnode)
+    cur, child = pm.get(id(st)), st
+    while cur is not None and cur is not fnode:
+        if isinstance(cur, ast.If):
+            in_body = any(child is x for x in cur.body)
+            t = expand_locals(fnode, cur.test)
+            neg = False
+            while isinstance(t, ast.UnaryOp) and isinstance(t.op, ast.Not):
+                t, neg = t.operand, not neg
+            if isinstance(t, ast.Call) and isinstance(t.func, ast.Name) and t.func.id in ('any', 'all') and len(t.args) == 1 and \
+                    isinstance(t.args[0], (ast.GeneratorExp, ast.ListComp)) and len(t.args[0].generators) == 1 and not t.args[0].generators[0].ifs:
+                g = t.args[0].generators[0]
+                q = 'exists' if t.func.id == 'any' else 'forall'
+                p = cond.formula(t.args[0].elt)
+                if neg != (not in_body):        # the statement runs when the quantified test is false
+                    q = 'forall' if q == 'exists' else 'exists'
+                    p = cond.Not(p)
+                return q, unparse(g.target), unparse(g.iter), p
+            # the search loop: for e in C: if P: S; break   (S in the body of the if)
+            loop = pm.get(id(cur))
+            if isinstance(loop, ast.For) and in_body and any(isinstance(x, ast.Break) for x in cur.body) and not cur.orelse:
+                return 'exists', unparse(loop.target), unparse(loop.iter), cond.formula(cur.test)
+        if isinstance(cur, ast.For) and any(child is x for x in cur.orelse):
+            # the else of a search loop: no element satisfied the test that breaks
+            for x in cur.body:
+                if isinstance(x, ast.If) and any(isinstance(y, ast.Break) for y in x.body) and not x.orelse:
+                    return 'forall', unparse(cur.target), unparse(cur.iter), cond.Not(cond.formula(x.test))
+        child, cur = cur, pm.get(id(cur))
+    return None
+
+
+def rule_g(ctx, ix):
+    """The loaders of the DataCollection protocols 1-3 split the saved links into links between datasets (installed on the
+    collection) and links inside one dataset (which the dataset re-creates itself): a link is between datasets as soon as ANY
+    of its inputs lives in another dataset than its output."""
+    from .. import cond
+    R = 'C12.g'
+    ctx.describe(R, 'old DataCollection records: a link with any input from another dataset is restored as a link between datasets', floor=2)
+    f = ix.func('glue.core.state._load_data_collection')
+    ext = [c for c in calls_in(f.node) if call_name(c) == 'set_links' and c.args and isinstance(c.args[0], ast.Name)]
+    if len(ext) != 1:
+        raise AnalysisError('_load_data_collection: the links handed to set_links are not recognised')
+    name = ext[0].args[0].id
+    adds = [st for st in ast.walk(f.node) if isinstance(st, ast.Expr) and isinstance(st.value, ast.Call) and call_name(st.value) == 'append'
+            and unparse(st.value.func.value) == name]
+    if not adds:
+        raise AnalysisError('_load_data_collection: nothing is appended to `%s`' % name)
+    for st in adds:
+        q = _quantified(f.node, st)
+        if q is None:
+            raise AnalysisError('_load_data_collection: the condition under which `%s` runs is not recognised' % norm(st))
+        quant, var, coll, pred = q
+        # the predicate, oriented: `<input>.parent is <the output's dataset>`
+        same = [a for a in cond.atoms(pred) if a.startswith('is|') and '.parent' in a]
+        ok = False
+        if len(same) == 1 and 'get_from_ids' in coll:
+            try:
+                differs = cond.equivalent(pred, cond.Not(cond.T(same[0])))
+                ok = quant == 'exists' and differs
+            except ValueError:
+                ok = False
+        ctx.ob(R, f.construct + ' `%s`' % norm(st), 'a link is installed on the collection when some input belongs to another dataset than its output', ok,
+               detail='_load_data_collection treats a link as a link between datasets when `%s %s in %s: %s`: a link computed from inputs of '
+                      'several datasets, one of which is the dataset of the output, is taken for an internal one, is not installed and '
+                      'disappears from the restored collection (records of protocols 1-3)' % (quant, var, coll, pred), where=where(f, st))
+    ctx.ob(R, f.construct, 'the links between datasets are installed on the collection', True)
